@@ -28,6 +28,8 @@ GOENV = dict(os.environ, GOFLAGS="-mod=mod", GOPROXY="off", GOSUMDB="off", GOTOO
 
 RT_GO = r'''package %(pkg)s
 
+import "time"
+
 // harness runtime (native build): values come from a tape so that a solver model replays exactly.
 type vAssumeFail struct{}
 type vAssertFail struct{ label string }
@@ -99,6 +101,7 @@ func vAssert(b bool, label string) {
 func vCover(label string) { vCovers = append(vCovers, label) }
 func vNote(label string)  {}
 func vYield()             {}
+func vSettle()            { time.Sleep(30 * time.Millisecond) }
 func vSymbolic() bool     { return false }
 func vIte(c bool, a, b int) int {
 	if c {
@@ -423,7 +426,11 @@ class HarnessResult:
             self.panics.append({"kind": st["kind"], "msg": st["msg"], "where": st["where"], "func": st["func"],
                                 "tape": st["tape"], "trace": st["trace"]})
         elif s == "blocked":
-            self.blocked.append({"info": st.get("info"), "trace": st["trace"]})
+            info = st.get("info") or {}
+            if isinstance(info, dict):
+                self.blocked.append({"info": info.get("msg"), "tape": info.get("tape"), "trace": st["trace"]})
+            else:
+                self.blocked.append({"info": info, "tape": None, "trace": st["trace"]})
         elif s in ("unsupported", "unknown", "unwind", "engine-error", "tape-exhausted"):
             self.problems.append({"status": s, "info": st.get("info"), "trace": st["trace"]})
         if st.get("unknown_q"):
